@@ -675,6 +675,9 @@ theorem step_ok {env : Env} {st : St} (hwf : WF env st) (op : Op) : StepOk env s
   cases op with
   | setLocation loc dh => exact setLocation_ok hwf loc dh
   | setContextState ps => exact setContextState_ok hwf ps
+  | otherCommit =>
+    exact ⟨(StepInv.init (fresh0 := st.fresh) hwf.nodup hwf.lt_fresh hwf.not_descr hwf.uniq hwf.assoc_open).toPost,
+      hwf.lt_fresh, Nat.le_refl _, .inr rfl⟩
 
 theorem StepOk.wf {env : Env} {st st' : St} (hwf : WF env st) (ok : StepOk env st st') : WF env st' where
   nodup := ok.post.nodup
